@@ -129,6 +129,20 @@ type Case struct {
 	Pssh   harness.HexBytes `json:"pssh,omitempty"` // complete pssh box(es) handed to InitProtect
 
 	NoAvoid bool `json:"noAvoid,omitempty"` // reproducer of a known finding: the generator switches do not apply
+	// RotateKeys (used by C07 only; set by the caller, never drawn by Gen): every fragment is encrypted with a key of
+	// its own (KeyOf), handed to EncryptFragment with the same InitProtectData.
+	RotateKeys bool `json:"rotateKeys,omitempty"`
+}
+
+// KeyOf is the key of the frag-th fragment (0-based): Key itself unless RotateKeys.
+func (c *Case) KeyOf(frag int) []byte {
+	if !c.RotateKeys || frag == 0 {
+		return c.Key
+	}
+	k := append([]byte(nil), c.Key...)
+	k[15] ^= byte(frag*37 + 1)
+	k[0] ^= byte(frag)
+	return k
 }
 
 // Video reports whether the track is a video track.
